@@ -235,7 +235,25 @@ def run_unit(ctx, p):
             out = q.A
             again = q.unit().A
         elif api == 'UnitQuaternion.ctor':
-            q = sm.UnitQuaternion(v) if p.get('form') != 'sv' else sm.UnitQuaternion(float(v[0]), v[1:])
+            form, kw = p.get('form', 'vec'), ({} if p.get('check') is None else dict(check=bool(p['check'])))
+            if form == 'sv':
+                q = sm.UnitQuaternion(float(v[0]), v[1:], **kw)
+            elif form == 'list':
+                q = sm.UnitQuaternion([float(t) for t in v], **kw)
+            elif form in ('list_of_vecs', 'Nx4'):
+                others = [np.asarray(x, dtype=np.float64) for x in p['others']]
+                arg = [v.copy()] + others if form == 'list_of_vecs' else np.vstack([v] + others)
+                q = sm.UnitQuaternion(arg, **kw)
+                if len(q) != 1 + len(others):
+                    ctx.bad('unit', dict(api=api, kind='wrong_length', form=form), 'UnitQuaternion of %d values gives %d' % (1 + len(others), len(q)))
+                    return
+                for x, o in zip([v] + others, q.data):
+                    judge_unit(ctx, api, x, o)
+                ctx.cell('unit_ctor', form, str(p.get('check')))
+                return
+            else:
+                q = sm.UnitQuaternion(v, **kw)
+            ctx.cell('unit_ctor', form, str(p.get('check')))
             out = q.A
             again = sm.UnitQuaternion(np.array(out)).A
         elif api == 'Quaternion.unit.multi':
@@ -385,7 +403,11 @@ def run(ctx):
             v = v / np.linalg.norm(v) * gen.logu(rng, 1e-6, 1e6)
         p = dict(api=api, v=v)
         if api == 'UnitQuaternion.ctor':
-            p['form'] = ['vec', 'sv'][rng.integers(2)]
+            p['form'] = ['vec', 'sv', 'list', 'list_of_vecs', 'Nx4'][rng.integers(5)]
+            p['check'] = [None, True, False][rng.integers(3)]       # the default normalisation must not depend on the check option
+            if p['form'] in ('list_of_vecs', 'Nx4'):
+                k = int(rng.integers(1, 4)) if p['form'] == 'list_of_vecs' else int([1, 2, 4, 5][rng.integers(4)])
+                p['others'] = [rng.normal(size=4) * gen.logu(rng, 1e-3, 1e3) for _ in range(k)]
         if api == 'Quaternion.unit.multi':
             p['vs'] = [v] + [rng.normal(size=4) * gen.logu(rng, 1e-3, 1e3) for _ in range(int(rng.integers(1, 4)))]
         drive(RUNNERS, ctx, 'unit', p)
